@@ -311,6 +311,7 @@ def run(ck):
     ok_proof = ck.prove(timeout=1400)
     d = ck.scratch
     okm, logm, ok3, log3 = build(ck)
+    ck.log("built: model=%s harness=%s" % (okm, ok3))
     if not ok3:
         ck.breaks.append("harness does not compile against /repo/src/ExactGeometricTests.hpp:\n" + log3[-2000:])
     if not okm:
@@ -356,6 +357,7 @@ def run(ck):
     text = "\n".join(lines) + "\n"
     cov = ck.coverage
     out_i = out_m = None
+    ck.log("generated %d input lines" % len(lines))
     if ok3:
         rc_i, out_i = vf.run_lines([os.path.join(d, "impl")], text, timeout=900)
         if rc_i != 0 or len(out_i) != len(lines):
@@ -373,6 +375,7 @@ def run(ck):
         nout = sum(1 for t in tags if "inrange=false" in t)
         if nout:
             ck.breaks.append("generator produced %d inputs outside [1,2)" % nout)
+    ck.log("implementation and model have run")
     reported = set()
 
     def report(k, why):
@@ -444,6 +447,7 @@ def run(ck):
                         bad += 1
                         report(k, "permutation: result %s under a permutation of parity %d, identity order gave exact=%d adaptive=%d" % (out_i[k], par, e0, a0))
         cov["oracle_checked_outputs"] = n
+        ck.log("oracle: %d outputs of the real code checked, %d failures" % (n, bad))
         cov["oracle_failures"] = bad
         cov["permutation_groups"] = len(first)
         if bad and not ck.violations:
